@@ -12,6 +12,12 @@ from .core import Ctx, AnchorLost
 def run_property(prop, tier, features=""):
     mod = importlib.import_module("rules." + prop.lower())
     ctx = Ctx(prop, tier, features)
+    # a body the extractor could not capture is code no rule has seen: fail closed
+    for facts in (ctx.ds, ctx.ep):
+        for st in facts.stolen:
+            if "SKIPPED" in st:
+                ctx.instances.append(core.Instance("extraction", "body-not-captured:" + st.split(" ")[0], False,
+                                                   "the MIR of %s could not be captured (stolen by an earlier query), so no rule analysed it" % st, None, False))
     for name, fn in mod.RULES:
         try:
             fn(ctx)
